@@ -1268,10 +1268,29 @@ func ruleCreateOnlyMerge(w *World, r *Report, pf *patchFamily, scope func(*ssa.F
 			if g == nil || g.Blocks == nil || fnPkg(g) != pf.pkg.Pkg || pf.member[g] || len(g.Params) == 0 {
 				return
 			}
+			// only a helper that hands the fresh object back as (part of) the patched document: it returns
+			// a node (a digest helper that collects an identity in a fresh object does not — QA-r5, QE-r3)
+			returnsNode := false
+			for i := 0; i < g.Signature.Results().Len(); i++ {
+				switch typeName(g.Signature.Results().At(i).Type()) {
+				case "JsonNode", "jsonObject":
+					returnsNode = true
+				}
+			}
+			if !returnsNode {
+				return
+			}
 			has := false
+			dg := NewDeriv(w, g)
 			allInstrs(g, func(in2 ssa.Instruction) {
 				if isFreshObject(in2) {
-					has = true
+					for _, ret := range returnsOf(g) {
+						for _, res := range ret.Results {
+							if dg.Visited(res)[in2.(ssa.Value)] {
+								has = true
+							}
+						}
+					}
 				}
 			})
 			if !has {
